@@ -52,6 +52,18 @@ CHECKS = {
         note="Trusted: numpy SVD. Chains of 3-7 sites, bond <= 16, dense dimension <= 1024; tree states are covered by C11's compress checks.",
         technique="property-based testing (Hypothesis) against dense SVD bounds (theorems) and a dense differential replica",
     ),
+    "C06": dict(
+        category="exploration",
+        text="Generated histories on models with one or two conserved quantum numbers: states in drawn sectors (incl. extreme ones), "
+             "charged and neutral operators, arithmetic, gauge moves, truncation down to M=1 with every criterion, variational "
+             "compression, ground-state optimisation (1site/2site, direct/davidson, 1-2 roots, incl. the overwritten guess) and "
+             "evolution with every scheme in real and imaginary time under a conserving Hamiltonian; after every step the dense weight "
+             "outside the expected sector (start sector plus operator charges) is <= 1e-9, qntot matches, and the stored bond labels "
+             "are checked against the non-zero blocks of every raw tensor.",
+        design_ref="DESIGN.md §4 C06",
+        note="Trusted: harness projector on number-operator eigenspaces from sigmaqn; label predicate on raw arrays. Trees: label checks inside C11/C12.",
+        technique="model-based property testing over generated operation histories with a sector/label invariant",
+    ),
     "C07": dict(
         category="exploration",
         text="Generated (state program, operator pool, operator list, permutation) cases: expectation / transition amplitudes, the "
@@ -101,6 +113,18 @@ CHECKS = {
         note="Trusted: numpy eigh-based exponentials, harness ladder matrices for the local Hamiltonian; dense Holstein H via Mpo.todense (C16). "
              "tau*||H|| <= 3; tree purification is covered in C12.",
         technique="property-based testing (Hypothesis) with dense Gibbs/propagator oracle, algebraic replicas and a metamorphic offset relation",
+    ),
+    "C13": dict(
+        category="exploration",
+        text="History-based aliasing test: over a pool of live Mps / MpDm / Mpo objects a generated sequence of derive / observe / "
+             "mutate instructions is executed (every public producing method incl. evolve with every scheme in real and imaginary "
+             "time, measurements, dump, in-place scale / canonicalise / compress / normalise / tensor overwrite incl. write-through of "
+             "the stored ndarray, config changes, model.mpos.clear()); all live objects are snapshotted (tensors x prefactor, qntot) "
+             "before every instruction and every object but the documented in-place target must be unchanged afterwards; methods "
+             "documented to return new objects must not return their input.",
+        design_ref="DESIGN.md §4 C13",
+        note="Trusted: snapshot comparison of todense()*coeff. Chain objects; evolve_exact is covered in C10, tree objects in C11/C12, OFS in C17.",
+        technique="stateful property testing (generated derive/mutate/observe histories, snapshot invariant over all live objects)",
     ),
     "C15": dict(
         category="exploration",
